@@ -198,7 +198,12 @@ def op_strategy():
     mp = st.tuples(st.just('map'), ai, ui)
     sc = st.tuples(st.just('sc'), ai, ui)
     launch = st.tuples(st.just('launch'), st.lists(st.one_of(mp, sc, sc, sample), max_size=5))
-    return st.one_of(mp, mp, sample, sample, launch).map(lambda t: [list(x) if isinstance(x, tuple) else x for x in t])
+    # one launch announcing the same address twice (shared cache and/or image records with different identities)
+    dup = st.tuples(st.just('launch'), st.tuples(ai, ui, ui, st.sampled_from(['sc', 'sc', 'map'])).map(
+        lambda t: [['sc', t[0], t[1]], [t[3], t[0], t[2]], ['sc', (t[0] + 3) % 8, t[2]]]))
+    near = st.tuples(st.just('sample'), st.just(0x08), st.just(True), st.integers(4, 12),
+                     st.lists(st.integers(0, 39), min_size=4, max_size=12), st.booleans())
+    return st.one_of(mp, mp, sample, sample, launch, dup, near).map(lambda t: [list(x) if isinstance(x, tuple) else x for x in t])
 
 
 def run(ctx):
